@@ -17,7 +17,22 @@
 #include <set>
 #include <cstdlib>
 
+#include <xalanc/Include/XalanDeque.hpp>
+#include <xercesc/framework/MemoryManager.hpp>
+
 using namespace xalanc;
+
+// counts what it is asked for; used by the "copy" lines: <id> copy <n> <blockSize>  ->  <id> c<allocations made on the
+// SOURCE's manager while the deque is copied into a container of another manager><outstanding on either manager after both
+// are destroyed><elements equal 0|1>
+struct CountMM : public xercesc::MemoryManager
+{
+    long allocs, live;
+    CountMM() : allocs(0), live(0) {}
+    virtual void* allocate(XMLSize_t n) { ++allocs; ++live; return std::malloc(n == 0 ? 1 : n); }
+    virtual void deallocate(void* p) { if (p != 0) { --live; std::free(p); } }
+    virtual xercesc::MemoryManager* getExceptionMemoryManager() { return this; }
+};
 
 static long g_dtors = 0;
 static std::set<const void*> g_destroyed_twice;
@@ -42,7 +57,33 @@ int main()
         if (line.empty() || line[0] == '#') continue;
         std::istringstream in(line);
         std::string id, op; unsigned bs; int db;
-        in >> id >> bs >> db;
+        in >> id;
+        {
+            std::string second;
+            std::streampos pos = in.tellg();
+            in >> second;
+            if (second == "copy")
+            {
+                unsigned n = 0, dbs = 10;
+                in >> n >> dbs;
+                CountMM ma, mb;
+                long during = 0; bool same = true;
+                {
+                    typedef XalanDeque<long> DequeType;
+                    DequeType d1(ma, 0, dbs);
+                    for (unsigned i = 0; i < n; ++i) d1.push_back(long(i) * 7 + 1);
+                    const long before = ma.allocs;
+                    DequeType d2(d1, mb);
+                    during = ma.allocs - before;
+                    if (d2.size() != d1.size()) same = false;
+                    for (unsigned i = 0; same && i < n; ++i) if (d2[i] != d1[i]) same = false;
+                }
+                std::cout << id << " c" << during << (ma.live + mb.live) << (same ? 1 : 0) << std::endl;
+                continue;
+            }
+            in.seekg(pos);
+        }
+        in >> bs >> db;
         std::ostringstream out;
         out << id;
         g_destroyed_twice.clear();
